@@ -965,6 +965,73 @@ def coq_obs(obs):
     return cm.clist(["(%s, %d%%nat)" % (cm.clist(fl), k) for fl, k in obs])
 
 
+def sv_option_monitor(chk, tier):
+    """StateVectorPropagator.propagate with its options (hfce: Hamiltonian supplied by a function; nonlinear: the function also gets the
+    current state): the state vector, Hamiltonian and time axis passed in stay as they were, a second call returns the same evolution,
+    and both equal the call on freshly built objects.  (Outside the Coq effect model, which carries the plain call only.)"""
+    import numpy as np
+    import quantarhei as qr
+    from quantarhei.qm.propagators.svpropagator import StateVectorPropagator
+    r = cm.rng(PID + "svopt")
+    for k in range(9 if tier == "quick" else 90):
+        rs = np.random.RandomState(r.randrange(2 ** 31))
+        n = int(rs.choice([2, 3, 4]))
+        Hm = rs.randn(n, n) * 0.03
+        Hm = Hm + Hm.T
+        mode = ["plain", "hfce", "nonlinear"][k % 3]
+        init = ["default_complex", "real_list", "complex_array"][(k // 3) % 3]
+        L = int(rs.choice([2, 4, 6]))
+        nref = int(rs.choice([1, 1, 2]))
+        gg = 0.01
+        c = {"kind": "svopt", "n": n, "mode": mode, "init": init, "L": L, "nref": nref, "k": k}
+
+        def make():
+            ta = qr.TimeAxis(0.0, 40, 1.0)
+            ham = qr.Hamiltonian(data=Hm.copy())
+            if init == "default_complex":
+                psi = qr.StateVector(n)
+                psi.data[n - 1] = 1.0
+            elif init == "real_list":
+                psi = qr.StateVector(data=[1.0 if i == n - 1 else 0.0 for i in range(n)])
+            else:
+                v = np.zeros(n, dtype=complex)
+                v[0], v[n - 1] = 0.6, 0.8j
+                psi = qr.StateVector(data=v)
+            pr = StateVectorPropagator(ta, ham)
+            if nref > 1:
+                pr.setDtRefinement(nref)
+            return ta, ham, psi, pr
+
+        def call(pr, psi):
+            if mode == "plain":
+                return pr.propagate(psi, L=L)
+            if mode == "hfce":
+                return pr.propagate(psi, L=L, hfce=lambda t: Hm)
+            return pr.propagate(psi, L=L, hfce=lambda HH, vec: HH + gg * np.diag(np.abs(vec) ** 2), nonlinear=True)
+        try:
+            ta, ham, psi, pr = make()
+            before = (np.array(psi.data).copy(), np.array(ham.data).copy(), np.array(ta.data).copy())
+            first = np.array(call(pr, psi).data).copy()
+            after = (np.array(psi.data), np.array(ham.data), np.array(ta.data))
+            chk.case(("svopt", k, mode, init, n, L, nref), True)
+            chk.count("svopt:%s:%s" % (mode, init))
+            for nm, b, a in zip(("initial state vector", "Hamiltonian", "time axis"), before, after):
+                if not np.array_equal(a, b):
+                    chk.violation("svopt:input_changed:" + mode, "StateVectorPropagator.propagate (%s, initial state %s) changed the %s passed in (max %g)"
+                                  % (mode, init, nm, float(np.max(np.abs(a - b)))), "monitor", c)
+            second = np.array(call(pr, psi).data)
+            if not np.array_equal(first, second):
+                chk.violation("svopt:not_repeatable:" + mode, "StateVectorPropagator.propagate (%s, initial state %s) called twice with the same inputs "
+                              "returns different evolutions (max %g)" % (mode, init, float(np.max(np.abs(first - second)))), "monitor", c)
+            ta2, ham2, psi2, pr2 = make()
+            fresh = np.array(call(pr2, psi2).data)
+            if not np.array_equal(first, fresh):
+                chk.violation("svopt:differs_from_fresh:" + mode, "StateVectorPropagator.propagate (%s, initial state %s) differs from the same call on "
+                              "freshly built objects (max %g)" % (mode, init, float(np.max(np.abs(first - fresh)))), "monitor", c)
+        except Exception as e:
+            chk.violation("svopt:exception:" + mode, "state-vector option monitor raised %r" % (e,), "monitor", c)
+
+
 def main():
     import multiprocessing
     chk = cm.Check(PID, args.tier)
@@ -1051,6 +1118,8 @@ def main():
             chk.violation("correspondence:history", "changed fields / result classes of the implementation differ from Model.C15 "
                           "(repaired) on history %s: observed %s; it %s"
                           % ([call_sig(c) for c in case["calls"]], o["obs"], which), "correspondence", case, found_input=False)
+    if not args.replay:
+        sv_option_monitor(chk, args.tier)
     chk.finish()
 
 
